@@ -752,12 +752,23 @@ func (e *Env) RParenSync() {
 // fixed per kind, every other condition is left free.
 func (e *Env) RHangGuard() {
 	pkg := e.Prog.Pkg(load.PkgDecorator)
+	// the function that reads the two indents of a node: link(), or a helper it was moved to
+	n := 0
+	for _, fd := range load.AllFuncDecls(pkg) {
+		if fd.Body != nil && e.hangGuardIn(fd) {
+			n++
+		}
+	}
+	if n == 0 {
+		e.Run.Floor("R-HANG", "spoofed end indents in link", 0, 1)
+	}
+	e.RHangNext()
+}
+
+func (e *Env) hangGuardIn(fd *ast.FuncDecl) bool {
+	pkg := e.Prog.Pkg(load.PkgDecorator)
 	c := e.Sib.Ctx[load.PkgDecorator]
 	info := pkg.TypesInfo
-	fd := load.FuncDecl(pkg, "fileDecorator", "link")
-	if fd == nil || fd.Body == nil {
-		return
-	}
 	// the locals that hold the two indents of the node, and the booleans that say it is a clause
 	var startV, endV types.Object
 	var endDef ast.Stmt
@@ -765,29 +776,31 @@ func (e *Env) RHangGuard() {
 	kindVar := map[string]string{}
 	ast.Inspect(fd.Body, func(nd ast.Node) bool {
 		as, ok := nd.(*ast.AssignStmt)
-		if !ok || as.Tok != token.DEFINE || len(as.Rhs) != 1 {
+		if !ok || as.Tok != token.DEFINE {
 			return true
 		}
-		if len(as.Lhs) == 1 {
-			id, _ := as.Lhs[0].(*ast.Ident)
-			ix, _ := ast.Unparen(as.Rhs[0]).(*ast.IndexExpr)
-			if id == nil || ix == nil {
-				return true
-			}
-			if sel, ok := ast.Unparen(ix.X).(*ast.SelectorExpr); ok {
-				switch sel.Sel.Name {
-				case "startIndents":
-					if startV == nil {
-						startV, startKey = info.Defs[id], c.ExprStr(ix.Index)
-					}
-				case "endIndents":
-					if endV == nil {
-						endV, endDef, endKey = info.Defs[id], as, c.ExprStr(ix.Index)
+		if len(as.Lhs) == len(as.Rhs) {
+			for i := range as.Lhs {
+				id, _ := as.Lhs[i].(*ast.Ident)
+				ix, _ := ast.Unparen(as.Rhs[i]).(*ast.IndexExpr)
+				if id == nil || ix == nil {
+					continue
+				}
+				if sel, ok := ast.Unparen(ix.X).(*ast.SelectorExpr); ok {
+					switch sel.Sel.Name {
+					case "startIndents":
+						if startV == nil {
+							startV, startKey = info.Defs[id], c.ExprStr(ix.Index)
+						}
+					case "endIndents":
+						if endV == nil {
+							endV, endDef, endKey = info.Defs[id], as, c.ExprStr(ix.Index)
+						}
 					}
 				}
 			}
 		}
-		if len(as.Lhs) == 2 {
+		if len(as.Lhs) == 2 && len(as.Rhs) == 1 {
 			id, _ := as.Lhs[1].(*ast.Ident)
 			ta, _ := ast.Unparen(as.Rhs[0]).(*ast.TypeAssertExpr)
 			if id == nil || ta == nil || ta.Type == nil || id.Name == "_" {
@@ -799,11 +812,10 @@ func (e *Env) RHangGuard() {
 		}
 		return true
 	})
-	const cons = "link: the hanging comments of a case / comm clause are searched at the indent of its body"
 	if startV == nil || endV == nil || startKey != endKey {
-		e.Run.Floor("R-HANG", "spoofed end indents in link", 0, 1)
-		return
+		return false
 	}
+	const cons = "link: the hanging comments of a case / comm clause are searched at the indent of its body"
 	startN, endN := startV.Name(), endV.Name()
 	// the statements from the definition on, in the list that holds the definition
 	var rel []ast.Stmt
@@ -907,13 +919,13 @@ func (e *Env) RHangGuard() {
 		g := parseGuard(pc)
 		if !okp || !g.ok {
 			e.Run.Undecided("R-HANG", cons, pos, "path condition outside the propositional subset: "+pc)
-			return
+			return true
 		}
 		if w.incr {
 			un, dec := unsatWith(pc, startN+" != "+endN)
 			if !dec {
 				e.Run.Undecided("R-HANG", cons, pos, "path condition outside the propositional subset: "+pc)
-				return
+				return true
 			}
 			if !un {
 				e.Run.Check("R-HANG", cons, pos, false,
@@ -938,7 +950,7 @@ func (e *Env) RHangGuard() {
 	vals, ok := valuations(atoms, 12)
 	if !ok {
 		e.Run.Undecided("R-HANG", cons, e.Prog.Pos(endDef.Pos()), "too many conditions between the definition of the end indent and its writes")
-		return
+		return true
 	}
 	kindOfAtom := func(a string) string {
 		if k, ok := kindVar[a]; ok {
@@ -996,6 +1008,73 @@ func (e *Env) RHangGuard() {
 	}
 	e.Run.Floor("R-HANG", "spoofed end indents in link", len(rs), 1)
 	_ = n
+	return true
+}
+
+// RHangNext: the hanging-indent search is handed two indents, [2]int{that of the hanging comments,
+// that of the comments of whatever follows}; the comments of the second group are attached to the
+// next node only when that node starts at the second of them. The rule compares the indent the
+// start of the next node is tested against with the second element of what the search was given —
+// a literal's second element, or X[1] of an array value X.
+func (e *Env) RHangNext() {
+	pkg := e.Prog.Pkg(load.PkgDecorator)
+	c := e.Sib.Ctx[load.PkgDecorator]
+	info := pkg.TypesInfo
+	fd := load.FuncDecl(pkg, "fileDecorator", "link")
+	if fd == nil || fd.Body == nil {
+		return
+	}
+	undo := c.InstallReaching(fd)
+	defer undo()
+	n := 0
+	ast.Inspect(fd.Body, func(nd ast.Node) bool {
+		call, ok := nd.(*ast.CallExpr)
+		if !ok || len(call.Args) != 2 {
+			return true
+		}
+		fn := calleeFunc(info, call)
+		if fn == nil || fn.Pkg() != pkg.Types {
+			return true
+		}
+		at, ok := info.TypeOf(call.Args[1]).Underlying().(*types.Array)
+		if !ok || at.Len() != 2 {
+			return true
+		}
+		// the indent of the second group
+		second := ""
+		switch v := ast.Unparen(call.Args[1]).(type) {
+		case *ast.CompositeLit:
+			if len(v.Elts) == 2 {
+				second = c.ExprStr(v.Elts[1])
+			}
+		default:
+			second = c.ExprStr(&ast.IndexExpr{X: call.Args[1], Index: &ast.BasicLit{Kind: token.INT, Value: "1"}})
+		}
+		if second == "" {
+			return true
+		}
+		// comparisons of a start indent of another node with something, after the call
+		ast.Inspect(fd.Body, func(m ast.Node) bool {
+			be, ok := m.(*ast.BinaryExpr)
+			if !ok || be.Op != token.EQL || be.Pos() < call.End() {
+				return true
+			}
+			x, y := c.ExprStr(be.X), c.ExprStr(be.Y)
+			if !strings.Contains(x, ".startIndents[") && !strings.Contains(y, ".startIndents[") {
+				return true
+			}
+			n++
+			other := y
+			if !strings.Contains(x, ".startIndents[") || x == second {
+				other = x
+			}
+			e.Run.Check("R-HANG", "link: the comments of the second group go to the next node when it starts at the indent they were collected at", e.Prog.Pos(be.Pos()), x == second || y == second,
+				"the hanging-indent search collects its second group at indent `"+second+"`, but the start of the next node is compared with `"+other+"`: a comment lined up with the next clause, written directly under a hanging comment, stays with the previous clause and is printed one level too deep")
+			return true
+		})
+		return true
+	})
+	e.Run.Floor("R-HANG", "tests of the next node's start indent in link", n, 1)
 }
 
 func mustParseExpr(s string) ast.Expr {
